@@ -384,7 +384,7 @@ pub fn run(ctx: &Ctx, st: &mut Stats) {
     ISO.run_exhaustive(ctx, st, nk * 7 * 2, &decode4);
     st.exhaustive_drivers.retain(|d| d != "isolation");
     // random sequences
-    let n = ctx.tier.pick(40_000, 2_000_000);
+    let n = ctx.tier.pick(120_000, 2_000_000);
     ISO.run_random(ctx, st, n, || {
         (
             0usize..KINDS.len(),
